@@ -121,6 +121,17 @@ def run(run, replay=None):
         cases.append(rdriver.case(cid, 'header', data, cat))
         run.count(('id-catalogue', h), nontrivial=True)
         cid += 1
+    # the FIRST header line of the stream (and, for comparison, a later one) with something in front of the '#':
+    # byte-order marks, other non-ASCII bytes, blanks - none of these lines is a header
+    first = b'#diffx: encoding=utf-8, version=1.0'
+    rest = b'\n#.change:\n#..file:\n#...meta: length=3\n{}\n'
+    for pre in (b'\xef\xbb\xbf', b'\xff\xfe', b'\xfe\xff', b'\xff\xfe\x00\x00', b'\xc3\xa9', b' ', b'\t', b'\x00', b'\xa0', b'\xe2\x80\x8b',
+                b'\xef\xbb\xbf\xef\xbb\xbf', b'x', b'##', b'\\', b'\x0c', b'\x1a'):
+        for data in (pre + first + rest, b'\n\n' + pre + first + rest, first + b'\n' + pre + rest[1:],
+                     first + b'\n#.change:\n' + pre + b'#..file:\n#...meta: length=3\n{}\n'):
+            cases.append(rdriver.case(cid, 'header', data, cat))
+            run.count(('prefixed-header', pre, len(data)), nontrivial=True)
+            cid += 1
     run.sample({'accepted_example': (PREFIX + sorted((s for w, s in acc if w == 1), key=len)[-1]).decode('latin-1')})
     run.sample({'accepted_example_value_position': (PREFIX[:-1] + sorted((s for w, s in acc if w == 2), key=len)[-1]).decode('latin-1')})
     run.sample({'rejected_example': (PREFIX + rejects[len(rejects) // 2][1]).decode('latin-1')})
